@@ -247,6 +247,32 @@ def seeded_boundary_seeds():
 SCENARIOS["seeded_boundary_seeds"] = seeded_boundary_seeds
 
 
+def two_sources_tie():
+    """A source-only model (nothing scheduled by hand): two constant sources whose ticks coincide
+    (rates 4/s and 1/s both deliver at t = 1 s, 2 s, ...) into one recording entity, plus a probe-like
+    daemon source; the order of the tied deliveries must not depend on earlier activity."""
+    from happysimulator import Entity, Instant, Simulation, Source
+
+    class Rec(Entity):
+        def __init__(self):
+            super().__init__("rec")
+            self.seen = []
+
+        def handle_event(self, event):
+            self.seen.append((self.now.nanoseconds, event.event_type))
+
+    rec = Rec()
+    fast = Source.constant(rate=4, target=rec, event_type="fast", name="fast")
+    slow = Source.constant(rate=1, target=rec, event_type="slow", name="slow")
+    mid = Source.constant(rate=2, target=rec, event_type="mid", name="mid")
+    sim = Simulation(sources=[fast, slow, mid], entities=[rec], end_time=Instant.from_seconds(4))
+    sim.run()
+    return {"order": [t for _, t in rec.seen][:40]}
+
+
+SCENARIOS["two_sources_tie"] = two_sources_tie
+
+
 try:
     from harness.scenarios_ops import SCENARIOS as _S_ops
     SCENARIOS.update(_S_ops)
